@@ -73,7 +73,7 @@ func init() {
 				if err := json.Unmarshal(raw, &in); err != nil {
 					return err
 				}
-				if err := c.Emit("volupd", in, runVolupd(in)); err != nil {
+				if err := c.Emit("volupd", withProp(in), runVolupd(in)); err != nil {
 					return err
 				}
 			}
@@ -85,7 +85,7 @@ func init() {
 		}
 		for i := 0; i < c.N; i++ {
 			in := volupdIn{Postings: genPostings(c, max, i%5 == 4)}
-			if err := c.Emit("volupd", in, runVolupd(in)); err != nil {
+			if err := c.Emit("volupd", withProp(in), runVolupd(in)); err != nil {
 				return err
 			}
 		}
